@@ -5,9 +5,11 @@ uninitialised data objects) driven with exact-size argument blocks, canaries
 in the application-owned fields, all object alignments and hostile integer
 arguments.  A worker death, a damaged canary, a stray pointer, a missing NUL
 or a garbage-dependent result is a violation."""
+import os
+import re
 import subprocess
 
-from .. import common, facts, gen, pool, rt
+from .. import build, common, facts, gen, pool, rt
 from ..pool import Death, Timeout
 
 PID = "C04"
@@ -265,12 +267,134 @@ def memcheck_sample(run_, seed, n):
     run_.merge(acc)
 
 
+FUZZ_ENV = {"ASAN_OPTIONS": "detect_leaks=0:allocator_may_return_null=1:abort_on_error=0",
+            "UBSAN_OPTIONS": "print_stacktrace=1"}
+
+
+def fuzz_exe(tree):
+    return tree.program("fuzz", "vfuzz.c", name="vfuzz", wrap=False, libs="-Wl,--wrap=mmap")
+
+
+def fuzz_seed_corpus(d, seed):
+    """one small file per (entry selector, method): byte 0 = selector, setting, NUL, phrase"""
+    n = 0
+    rng = rt.rng_for(seed, PID, "fuzz-corpus")
+    for m in gen.METHODS:
+        for i in range(6):
+            s, _ = gen.gen_valid(rng, m)
+            if gen.cost_units(s, 8) > 3000:
+                continue
+            for sel in (0, 1, 2, 3, 4, 7):
+                with open(os.path.join(d, "s%04d" % n), "wb") as f:
+                    f.write(bytes([sel]) + s + b"\0" + gen.gen_phrase(rng, rng.choice([0, 5, 9, 20])).replace(b"\0", b"x"))
+                n += 1
+    # settings and phrases near the field sizes (384, 512): length is the hard thing for mutation to find
+    for m in gen.METHODS:
+        s, _ = gen.gen_valid(rng, m)
+        if gen.cost_units(s, 8) > 3000:
+            continue
+        for extra in (60, 200, 330, 372, 500):
+            for sel in (0, 1):
+                with open(os.path.join(d, "l%04d" % n), "wb") as f:
+                    f.write(bytes([sel]) + s + gen.rsalt(rng, extra) + b"\0pw")
+                n += 1
+        with open(os.path.join(d, "l%04d" % n), "wb") as f:
+            f.write(bytes([0]) + s + b"\0" + b"p" * rng.choice([255, 256, 511, 512, 600]))
+        n += 1
+    for m in facts.GENSALT_METHODS:
+        for i in range(3):
+            with open(os.path.join(d, "g%04d" % n), "wb") as f:
+                f.write(bytes([3]) + gen.TAG[m] + b"\0" + bytes([rng.randrange(1, 256) for _ in range(rng.choice([4, 20, 70]))]))
+            n += 1
+    return n
+
+
+def fuzz_job(args):
+    exe, seeds, outdir, j, seed, runs = args
+    cdir = os.path.join(outdir, "c%d" % j)
+    os.makedirs(cdir, exist_ok=True)
+    pre = os.path.join(outdir, "art%d-" % j)
+    cmd = [exe, "-runs=%d" % runs, "-seed=%d" % (seed * 1000 + j + 1), "-max_len=700", "-len_control=0", "-timeout=30", "-rss_limit_mb=4096",
+           "-artifact_prefix=" + pre, "-print_final_stats=1", cdir, seeds]
+    try:
+        p = subprocess.run(cmd, stdout=subprocess.DEVNULL, stderr=subprocess.PIPE, env=dict(os.environ, **FUZZ_ENV),
+                           timeout=max(600, runs // 20))
+        err, rc = p.stderr.decode("utf-8", "replace"), p.returncode
+    except subprocess.TimeoutExpired as e:
+        err, rc = (e.stderr or b"").decode("utf-8", "replace"), "watchdog"
+    st = {}
+    for k in ("number_of_executed_units", "new_units_added"):
+        m = re.search(r"stat::%s:\s+(\d+)" % k, err)
+        st[k] = int(m.group(1)) if m else 0
+    cov = re.findall(r"cov: (\d+) ft: (\d+)", err)
+    st["cov"], st["ft"] = (int(cov[-1][0]), int(cov[-1][1])) if cov else (0, 0)
+    arts = []
+    for f in sorted(os.listdir(outdir)):
+        if f.startswith("art%d-" % j):
+            with open(os.path.join(outdir, f), "rb") as fh:
+                arts.append((f[len("art%d-" % j):], fh.read()))
+    return j, rc, st, arts, err[-6000:], " ".join(cmd)
+
+
+def fuzz_stage(run_, tier):
+    """coverage-guided exploration (libFuzzer) of crypt_rn/crypt_r/crypt_checksalt/crypt_gensalt_rn under
+    ASan+UBSan with the harness's own monitors; the hash cores are not instrumented (speed), the parsers are"""
+    tree = rt.TREE
+    acc = common.Acc()
+    try:
+        exe = fuzz_exe(tree)
+    except build.BuildError as e:
+        acc.inconc("fuzz harness does not build: %s" % str(e)[-300:])
+        run_.merge(acc)
+        return
+    d = tree.scratch("fuzz")
+    try:
+        seeds = os.path.join(d, "seeds")
+        os.makedirs(seeds)
+        nseed = fuzz_seed_corpus(seeds, run_.seed)
+        jobs, runs = (16, 5000) if tier == "quick" else (16, 150000)
+        if os.environ.get("VERIF_C04_FUZZ_RUNS"):
+            runs = int(os.environ["VERIF_C04_FUZZ_RUNS"])
+        res = pool.pmap(fuzz_job, [(exe, seeds, d, j, run_.seed, runs) for j in range(jobs)])
+        for j, rc, st, arts, err, cmd in res:
+            acc.count("fuzz_execs", st["number_of_executed_units"])
+            acc.count("evaluations", st["number_of_executed_units"])
+            acc.count("fuzz_new_units", st["new_units_added"])
+            acc.n["fuzz_cov_edges"] = max(acc.n.get("fuzz_cov_edges", 0), st["cov"])
+            acc.n["fuzz_features"] = max(acc.n.get("fuzz_features", 0), st["ft"])
+            if st["number_of_executed_units"]:
+                acc.cls(("fuzz", "job-ran"))
+            crashed = False
+            for name, blob in arts:
+                if name.startswith(("timeout", "slow-unit", "oom")):
+                    acc.inconc("fuzz job %d: %s artifact (%d bytes) - cost, not a verdict" % (j, name.split("-")[0], len(blob)))
+                    continue
+                crashed = True
+                dth = pool.Death(1, err, 0)
+                m = re.search(r"VFUZZ-MONITOR: ([^(\n]+)", err)
+                kind = ("monitor:" + re.sub(r"[^a-z0-9]+", "-", m.group(1).strip().lower())[:60]) if m else dth.kind()
+                acc.violation("%s/fuzz/%s/%s" % (PID, kind, "harness" if m else dth.frame()),
+                              "libFuzzer input %s (%d bytes, hex %s) :: %s" % (name, len(blob), blob[:120].hex(),
+                                                                             err[-1200:].replace("\n", " | ")),
+                              {"fuzz_input_hex": blob.hex(), "cmd": "<vfuzz built by tree.program('fuzz','vfuzz.c')> <file>",
+                               "note": err[-3000:]})
+            if rc not in (0,) and not crashed and not arts:
+                acc.inconc("fuzz job %d ended with %s and left no artifact: %s" % (j, rc, err[-200:]))
+        acc.n["fuzz_seed_files"] = nseed
+    finally:
+        import shutil
+        shutil.rmtree(d, ignore_errors=True)
+    run_.merge(acc)
+
+
 def run(tier):
     run_ = common.Run(PID, tier, "exploration")
     rt.prepare(["asan", "msan"] + (["opt"] if tier == "thorough" else []))
     na, nm, ng = (14000, 4000, 6000) if tier == "quick" else (160000, 40000, 60000)
     work = []
     skipped = 0
+    if os.environ.get("VERIF_C04_ONLY_FUZZ"):       # development aid: judge the fuzz stage alone
+        na = nm = ng = 40
     for fl, n in (("asan", na), ("msan", nm)):
         cs, sk = crypt_cases(run_.seed, n, fl)
         skipped += sk
@@ -284,6 +408,7 @@ def run(tier):
         run_.merge(acc)
     if tier == "thorough":
         memcheck_sample(run_, run_.seed, 3000)
+    fuzz_stage(run_, tier)
     a = run_.acc
     cov = {
         "rule": "case = (entry point, phrase 0..4096 bytes, setting: valid / field-mutated (stretched salt runs up to "
@@ -299,6 +424,14 @@ def run(tier):
         "memcheck_calls": int(a.n.get("memcheck_calls", 0)),
         "sanitizer_or_signal_deaths": int(a.n.get("deaths", 0)),
         "skipped_expensive": skipped,
+        "libfuzzer": {"executions": int(a.n.get("fuzz_execs", 0)), "seed_files": int(a.n.get("fuzz_seed_files", 0)),
+                      "new_corpus_units": int(a.n.get("fuzz_new_units", 0)),
+                      "edges_covered_in_instrumented_code": int(a.n.get("fuzz_cov_edges", 0)),
+                      "features": int(a.n.get("fuzz_features", 0)),
+                      "note": "clang-14 -fsanitize=fuzzer,address,undefined; crypt*.c, util*.c and the API layer "
+                              "instrumented, alg-*.c at -O2 uninstrumented; monitors: returned pointer, NUL in output, "
+                              "canaries in setting/input, unsafe result characters, same result on a differently filled "
+                              "object, round trip, generated setting not INVALID"},
         "flavours": ["asan (gcc address+undefined, fatal)", "msan (clang-14, origins, uninitialised objects)"] +
                     (["memcheck on -O2"] if tier == "thorough" else []),
     }
